@@ -140,6 +140,7 @@ def run(ctx):
                 ctx.require(any(c.endswith("Graph::reverse") for c in callees), "R-C06-1", "names|%s|%s" % (b.short.split("::", 3)[-1], t.callee.short.split("::")[-1]), "node names are looked up in the same (possibly reversed) graph the kernels ran on", "node names / positions are taken from a different graph value (%s) than the one the kernels run on: positions of the reversed graph need not agree with the original's" % t.callee.short.split("::")[-1], loc_str(t.span))
     ctx.floor("R-C06-1", "name_lookups", n_names, 1)
 
+    rule3(ctx, prog, flows, root, kcalls)
     ctx.rule("R-C06-2", "the result depends on weighted, wf_improved and the kernels")
     sl = set()
     for (bb, w, s) in ok_producers(root) or []:
@@ -151,3 +152,33 @@ def run(ctx):
             ctx.anchor_lost("R-C06-2", "parameter " + pn)
             continue
         ctx.require((root.path, L(pl)) in sl, "R-C06-2", pn, "result depends on `%s`" % pn, "result does not depend on `%s`" % pn, loc_str(root.span))
+
+
+def rule3(ctx, prog, flows, root, kcalls):
+    """which kernel runs is decided by the caller's `weighted` flag alone"""
+    from props.c01 import controlling_atoms
+
+    ctx.rule("R-C06-3", "the choice between the weighted and the hop-count kernel tests the caller's `weighted` flag itself: no graph-derived value takes part in it")
+    n = 0
+    for (b, t) in kcalls:
+        fl = flows.of(b)
+        kname = t.callee.short.split("::")[-1]
+        found = False
+        for blk_i in sorted({a for (a, s) in b.transitive_control_deps(t.bb) if not isinstance(a, tuple)}):
+            blk = b.blocks[blk_i]
+            if blk.term.k != "switch" or blk.term.discr.place is None or blk.term.discr.place.ty != "bool":
+                continue
+            wide = flows.slice(b.path, fl._op_reads(blk.term.discr), up=True, down=False, data_only=False, roots=(root.path,), value_only=True)
+            pw = root.param_local("weighted")
+            if pw is None or (root.path, ("L", pw)) not in wide:
+                continue
+            found = True
+            n += 1
+            params, callees = value_descriptor(flows, root.path, b.path, blk.term.discr)
+            narrow = flows.slice(b.path, fl._op_reads(blk.term.discr), up=True, down=False, data_only=True, roots=(root.path,))
+            srcs = sorted({".".join(f for f in nd[2] if f != "*") for (bp, nd) in narrow if nd[0] == "SRC"} - {"^weighted", "weighted", ""})
+            ctx.require(not callees and params <= {"weighted"} and not srcs, "R-C06-3", "dispatch|%s|%s" % (b.short.split("::", 3)[-1], kname), "%s is selected by `weighted` alone" % kname,
+                        "the test that selects %s depends on more than the caller's `weighted` flag (parameters %s, crate calls %s, graph fields %s): for some graph a weighted request is answered with hop counts (or the reverse)" % (kname, sorted(params), sorted(c.split("::")[-1] for c in callees), srcs), loc_str(blk.term.span))
+        if not found:
+            ctx.violation("R-C06-3", "dispatch|%s|%s" % (b.short.split("::", 3)[-1], kname), "the call of %s is not controlled by a test of `weighted`" % kname, loc_str(t.span))
+    ctx.floor("R-C06-3", "kernel_dispatch_tests", n, 2)
